@@ -45,6 +45,7 @@ RULE = (
     'fixed/free x additive/log-scale with deterministic values. Non-trivial: n_obs*n_times >= 2 and (a special '
     'dimension not in last position or free sigma together with a special dimension). Distinct = structural '
     'projection (composition, filter parts, shapes, sigma mode, noise scale, covariate shape, time order).')
+RULE += (' ' + "Added clause: the user's filter object shared by two posteriors.")
 ASSUMPTIONS = [
     'analytic mechanistic model is harness code and returns exact output sensitivities',
     'reference population densities (vf/ref.py), filter scores (vf/ref_filters.py, validated by C12) and priors '
